@@ -714,6 +714,21 @@ theorem regAll_mem (O : Oracles) (v : PyVal) : ∀ (fs : List FieldDecl) (f : Fi
     · simpa [hc] using hr.1
     · exact regAll_mem O v fs f hr.2 h' hc
 
+/-! ### positional items in element position -/
+
+theorem emitLW_length (fx : Bool) : ∀ fs : List FieldDecl, (emitLW fx fs).length = fs.length
+  | [] => rfl
+  | f :: fs => by simp [emitLW, emitLW_length fx fs]
+
+theorem jsZip_wrap (R S) : ∀ (fs : List FieldDecl) (ys : List PyVal),
+    jsZip R S (emitL true fs) ys = true → jsZip R S (emitLW true fs) ys = true
+  | [], _, _ => by simp [emitLW, jsZip]
+  | f :: fs, [], _ => by simp [emitLW, jsZip]
+  | f :: fs, y :: ys, h => by
+    simp only [emitL, jsZip, and_true_iff'] at h
+    simp only [emitLW, jsZip, and_true_iff']
+    exact ⟨jsV_elemWrap R S f _ y h.1, jsZip_wrap R S fs ys h.2⟩
+
 /-! ### `AllOf` over raw scalars -/
 
 theorem rawScalar_plain (f : FieldDecl) (h : rawScalar f = true) : plainScalar f = true := by
@@ -970,13 +985,13 @@ theorem admits_field (O : Oracles) (S : String → String → Bool)
       simp only [ser] at hj
       obtain ⟨ys, hys, rfl⟩ := sSeq_list _ xs j hj
       simp only [emit]
-      refine jsV_arrOf _ S sz (emit true f) ys (emit_shape true f)
+      refine jsV_arrOf _ S sz (elemWrap f (emit true f)) ys (elemWrap_shape f _ (emit_shape true f))
         (fun h => by simpa [h, hys, distinctImages] using hr.2) ?_ ?_
       · rw [mapE_length _ xs ys hys]; exact hc.1.1.2
       · refine mapE_all (ser O f) _ xs ys ?_ hys
         intro x hx y hy
-        exact admits_field O S hS D f n x hf.2 hrf hd (List.all_eq_true.mp hc.2 x hx)
-          (List.all_eq_true.mp hr.1 x hx) y hy
+        exact jsV_elemWrap _ S f _ y (admits_field O S hS D f n x hf.2 hrf hd (List.all_eq_true.mp hc.2 x hx)
+          (List.all_eq_true.mp hr.1 x hx) y hy)
     | _ => simp [seqElems] at hc
   | .seqPos k fs addl sz, n, v, hf, hrf, hd, hc, hr => by
     intro j hj
@@ -995,12 +1010,12 @@ theorem admits_field (O : Oracles) (S : String → String → Bool)
       have hlen1 : fs.length ≤ xs.length := by simpa using hc.1.2.1
       have hlen : ys.length = xs.length := serZip_length O fs xs ys hlen1 hys
       simp only [emit]
-      refine jsV_arrPos _ S sz addl (emitL true fs) ys
+      refine jsV_arrPos _ S sz addl (emitLW true fs) ys
         (fun h => by simpa [h, hys, distinctImages] using hr.2) ?_ ?_ ?_
       · rw [hlen]; exact hc.1.1.2
-      · exact admits_zip O S hS D fs n xs hf.2 hrf hd hc.2 hr.1 ys hys
+      · exact jsZip_wrap _ S fs ys (admits_zip O S hS D fs n xs hf.2 hrf hd hc.2 hr.1 ys hys)
       · intro ha
-        rw [emitL_length, hlen]
+        rw [emitLW_length, hlen]
         simpa [ha] using hc.1.2.2
     | _ => simp [seqElems] at hc
   | .tupleOf f u, n, v, hf, hrf, hd, hc, hr => by
@@ -1016,12 +1031,12 @@ theorem admits_field (O : Oracles) (S : String → String → Bool)
       simp only [ser] at hj
       obtain ⟨ys, hys, rfl⟩ := sSeq_tuple _ xs j hj
       simp only [emit]
-      refine jsV_arrOf _ S { uniq := u } (emit true f) ys (emit_shape true f)
+      refine jsV_arrOf _ S { uniq := u } (elemWrap f (emit true f)) ys (elemWrap_shape f _ (emit_shape true f))
         (fun h => by simp at h; simpa [h, hys, distinctImages] using hr.2) (by simp [sizeOk, geLen, leLen]) ?_
       refine mapE_all (ser O f) _ xs ys ?_ hys
       intro x hx y hy
-      exact admits_field O S hS D f n x hf hrf hd (List.all_eq_true.mp hc.2 x hx)
-        (List.all_eq_true.mp hr.1 x hx) y hy
+      exact jsV_elemWrap _ S f _ y (admits_field O S hS D f n x hf hrf hd (List.all_eq_true.mp hc.2 x hx)
+        (List.all_eq_true.mp hr.1 x hx) y hy)
     | _ => simp at hc
   | .tuplePos fs u, n, v, hf, hrf, hd, hc, hr => by
     intro j hj
@@ -1038,9 +1053,9 @@ theorem admits_field (O : Oracles) (S : String → String → Bool)
       have hlen0 : fs.length = xs.length := by simpa using hc.1.2
       have hlen : ys.length = xs.length := serZip_length O fs xs ys (by omega) hys
       simp only [emit]
-      refine jsV_tupKws _ S u (emitL true fs) ys (fun h => by simpa [h, hys, distinctImages] using hr.2) ?_ ?_
-      · exact admits_zip O S hS D fs n xs hf.2 hrf hd hc.2 hr.1 ys hys
-      · rw [emitL_length]; omega
+      refine jsV_tupKws _ S u (emitLW true fs) ys (fun h => by simpa [h, hys, distinctImages] using hr.2) ?_ ?_
+      · exact jsZip_wrap _ S fs ys (admits_zip O S hS D fs n xs hf.2 hrf hd hc.2 hr.1 ys hys)
+      · rw [emitLW_length]; omega
     | _ => simp at hc
   | .mapAny sz, n, v, _, _, _, hc, hr => by
     intro j hj
@@ -1071,9 +1086,9 @@ theorem admits_field (O : Oracles) (S : String → String → Bool)
       obtain ⟨r, hr', rfl⟩ := sMap_dict _ kvs j hj
       have hcount := hcount _ rfl
       simp only [emit]
-      have hvals : (dictOfPairs r).all (fun kv => jsV (resolver D S n) S (emit true vf) kv.2) = true := by
-        refine dictOfPairs_all (fun kv => jsV (resolver D S n) S (emit true vf) kv.2) (fun _ => true)
-          (jsV (resolver D S n) S (emit true vf)) (fun kv => by simp) r ?_
+      have hvals : (dictOfPairs r).all (fun kv => jsV (resolver D S n) S (elemWrap vf (emit true vf)) kv.2) = true := by
+        refine dictOfPairs_all (fun kv => jsV (resolver D S n) S (elemWrap vf (emit true vf)) kv.2) (fun _ => true)
+          (jsV (resolver D S n) S (elemWrap vf (emit true vf))) (fun kv => by simp) r ?_
         refine mapE_all _ _ kvs r ?_ hr'
         intro kv hkv y hy
         rcases bindE_eq_ok hy with ⟨k', _, h2⟩
@@ -1081,11 +1096,12 @@ theorem admits_field (O : Oracles) (S : String → String → Bool)
         cases h3
         have hckv := List.all_eq_true.mp hc.2 kv hkv
         simp only [and_true_iff'] at hckv
-        exact admits_field O S hS D vf n kv.2 hf.2 hrf hd hckv.2 (List.all_eq_true.mp hr kv hkv) v' hv'
+        exact jsV_elemWrap _ S vf _ v' (admits_field O S hS D vf n kv.2 hf.2 hrf hd hckv.2 (List.all_eq_true.mp hr kv hkv) v' hv')
       cases hkp : (mapKeyPattern k != "") with
-      | true => exact jsV_mapPat _ S k (emit true vf) sz _ hkp hcount hvals
+      | true => exact jsV_mapPat _ S k (elemWrap vf (emit true vf)) sz _ hkp hcount hvals
       | false =>
-        exact jsV_mapOf _ S k (emit true vf) sz _ (by simpa using hkp) (emit_shape true vf) hcount hvals
+        exact jsV_mapOf _ S k (elemWrap vf (emit true vf)) sz _ (by simpa using hkp)
+          (elemWrap_shape vf _ (emit_shape true vf)) hcount hvals
     | _ => simp at hc
   | .struct c fields defaults, n, v, hf, hrf, hd, _, hr => by
     intro j hj
@@ -1186,13 +1202,13 @@ theorem admits_field (O : Oracles) (S : String → String → Bool)
       simp only [ser] at hj
       obtain ⟨ys, hys, rfl⟩ := sSeq_set _ fr xs j hj
       simp only [emit]
-      refine jsV_setOf _ S sz (emit true f) ys (emit_shape true f)
+      refine jsV_setOf _ S sz (elemWrap f (emit true f)) ys (elemWrap_shape f _ (emit_shape true f))
         (by simpa [hys, distinctImages] using hr.2) ?_ ?_
       · rw [mapE_length _ xs ys hys]; exact hc.1.2
       · refine mapE_all (ser O f) _ xs ys ?_ hys
         intro x hx y hy
-        exact admits_field O S hS D f n x hf hrf hd (List.all_eq_true.mp hc.2 x hx)
-          (List.all_eq_true.mp hr.1 x hx) y hy
+        exact jsV_elemWrap _ S f _ y (admits_field O S hS D f n x hf hrf hd (List.all_eq_true.mp hc.2 x hx)
+          (List.all_eq_true.mp hr.1 x hx) y hy)
     | _ => simp at hc
   | .oneOf fs, n, v, hf, hrf, hd, hc, hr => by
     intro j hj
